@@ -162,6 +162,7 @@ fn main() {
                 let op = match &o[..1] {
                     "p" => Op::Put(n(), 0),
                     "d" => Op::Del(n()),
+                    "b" => Op::Batch(o[1..].bytes().map(|c| (c - b'0', true)).collect()),
                     "f" => Op::Flush,
                     "c" => Op::Compact(None, None),
                     "r" => Op::Reopen(n()),
@@ -173,6 +174,39 @@ fn main() {
                 println!("{:<4} -> {:?} {:?} | {}", o, r.err().map(|v| v.clause), chk.err().map(|v| format!("{} {}", v.clause, v.detail)), lay.join(" "));
             }
             w.close();
+        });
+        return;
+    }
+    if args[1] == "devcorrupt" {
+        // devcorrupt <image-name>: every table byte with bit 0 flipped, outcome per offset
+        use corruptx::*;
+        let name = args[2].clone();
+        let s = sched::Sched::new(sched::Mode::Fixed);
+        run::run_once(&s, move || {
+            let h = props_crash::c15_histories().into_iter().find(|h| h.name == name).expect("image");
+            let img = build_image(&h).expect("build");
+            for (p, b) in img.image.iter() {
+                println!("{} {} bytes", p.display(), b.len());
+                if file_kind(p) != "table" {
+                    continue;
+                }
+                let mut line = String::new();
+                for off in 0..b.len() {
+                    let c = Case { image: 0, file: p.clone(), offset: off, mutation: Mutation::FlipBit(0) };
+                    let (class, viol) = eval_case(&img, &c);
+                    line.push(match (class.as_str(), viol.is_some()) {
+                        (_, true) => 'V',
+                        ("open_error", _) => 'o',
+                        ("read_error", _) => 'e',
+                        ("all_correct", _) => '.',
+                        _ => '?',
+                    });
+                    if let Some((c, d)) = viol {
+                        println!("  off {} {} {}", off, c, d.chars().take(160).collect::<String>());
+                    }
+                }
+                println!("  {}", line);
+            }
         });
         return;
     }
